@@ -810,6 +810,19 @@ func (c *Case) buildEnc(enc encode.Encoder) (*trie.SlimTrie, error) {
 	if sel%16 == 5 {
 		runtime.GC() // pooled or weakly held builder state does not survive a collection
 	}
+	if sel%7 == 3 {
+		// history: earlier in the process the caller made option pointers with the
+		// library's helper, built with them, and then wrote through ITS OWN pointers
+		// to re-use the variables (e.g. the same data once exact, once compact).
+		// That is the caller's memory; a later build with fresh pointers is not
+		// concerned. The variables are set back afterwards.
+		yes, no := trie.Bool(true), trie.Bool(false)
+		if _, err := trie.NewSlimTrie(encode.I32{}, []string{"a", "b"}, []int32{1, 2}, trie.Opt{Complete: yes, DedupValue: no}); err != nil {
+			return nil, fmt.Errorf("harness: warm-up build failed: %v", err)
+		}
+		*yes, *no = false, true
+		defer func() { *yes, *no = true, false }()
+	}
 	if c.Opt == (OptSpec{}) && sel%2 == 0 {
 		return trie.NewSlimTrie(enc, keys, vals)
 	}
